@@ -50,6 +50,12 @@ def gen_vals(rng, kind, n):
     sub = rng.sample(pool, min(rng.choice([1, 2, 3, 3, 4]), len(pool)))
     if rng.random() < 0.1 and kind in ("float", "date", "timedelta"):
         return [pool[0]] * n
+    if rng.random() < 0.12 and kind in ("float", "int"):
+        # a small spread around a large value (timestamps, identifiers, money in cents): every value exactly representable,
+        # so the textbook statistic is too; formulas that subtract two large numbers lose it
+        base = rng.choice([16000000, 100000000, 1600000000])   # (eps*base)**2 stays far below the tolerance: a two-pass formula is exact enough
+        small = [x for x in sub if not vecgen.is_na_val(kind, x)] or [1]
+        return [(base + abs(rng.choice(small))) if rng.random() < 0.9 or kind == "int" else "nan" for _ in range(n)]
     return [rng.choice(sub) for _ in range(n)]
 
 
